@@ -17,7 +17,7 @@ class Env:
 
     def __init__(self, c, t0=None):
         self.c = c
-        self.t = c.integer("t0", 0, 10 ** 9) if t0 is None else t0
+        self.t = c.integer("t0", 0, 10 ** 10) if t0 is None else t0  # beyond 2**32 us (71.6 min of FPGA time)
         self.alarm = None
         self.stopped = 0
         self.cleaned = 0
